@@ -1030,6 +1030,39 @@ theorem popped_nodup {k : Kind} {s : St} (h : Inv k s) (hv : VInv s) : s.popped.
   rw [h.vals, List.append_assoc] at hp
   exact (List.nodup_append.mp hp).1
 
+theorem idx_of_prefix {l m : List Nat} (h : l <+: m) {i a : Nat} (hi : l[i]? = some a) :
+    m[i]? = some a := by
+  obtain ⟨r, hr⟩ := h
+  rw [← hr, List.getElem?_append_left (idx_lt hi)]; exact hi
+
+/-- order of publication respects real time (abstract form): `vA`'s push had returned in
+    state `a`, `vB` had not been handed to push yet, `b` is a later state -/
+theorem realtime_abs {a b : St} {vA vB : Nat} (hv : VInv a) (hA : vA ∈ a.returned)
+    (hfresh : vB ∉ a.called) (hpre : a.pushed <+: b.pushed) (hnd : b.pushed.Nodup)
+    {i j : Nat} (hia : b.pushed[i]? = some vA) (hjb : b.pushed[j]? = some vB) : i < j := by
+  have hfresh' : vB ∉ a.pushed := fun hm => hfresh (hv.pushedSub _ hm)
+  have hA1 : vA ∈ a.pushed := hv.retSub _ hA
+  obtain ⟨i0, hi0⟩ := idx_of_mem hA1
+  have hlt0 := idx_lt hi0
+  have hi0' : b.pushed[i0]? = some vA := idx_of_prefix hpre hi0
+  have : i = i0 := nodup_idx hnd hia hi0'
+  subst this
+  by_cases hj : j < a.pushed.length
+  · exfalso
+    obtain ⟨l, hl⟩ := hpre
+    rw [← hl, List.getElem?_append_left hj] at hjb
+    exact hfresh' (mem_of_idx hjb)
+  · omega
+
+theorem callPush_fresh {k : Kind} {s s' : St} {t v : Nat}
+    (h : step k s (.callPush t v) = some s') :
+    s.pc t = .idle ∧ v ≠ 0 ∧ v ∉ s.called ∧ s'.pc t = .called v := by
+  simp only [step] at h
+  split at h <;> simp at h
+  rename_i hc
+  subst h
+  exact ⟨hc.1, hc.2.1, hc.2.2.1, by simp⟩
+
 /-- order of publication respects real time: a push that returned before another one was
     called is published first -/
 theorem realtime_core {k : Kind} {stub : Nat} {s1 s2 : St} {es : List Ev} {tB vA vB : Nat}
@@ -1038,30 +1071,22 @@ theorem realtime_core {k : Kind} {stub : Nat} {s1 s2 : St} {es : List Ev} {tB vA
     {i j : Nat} (hia : s2.pushed[i]? = some vA) (hjb : s2.pushed[j]? = some vB) : i < j := by
   have hpre := pushed_prefix_of_runFrom hrun
   have hv2 := (invs_of_runFrom hi hrun).2
-  -- `vB` was fresh when its push was called
-  have hfresh : vB ∉ s1.pushed := by
+  have hfresh : vB ∉ s1.called := by
     simp only [Sys.runFrom] at hrun
     cases hst : (sys k stub).step s1 (.callPush tB vB) with
     | none => simp [hst] at hrun
-    | some s1' =>
-      have hst' : step k s1 (.callPush tB vB) = some s1' := hst
-      simp only [step] at hst'
-      split at hst' <;> simp at hst'
-      rename_i hc
-      exact fun hm => hc.2.2.1 (hi.2.pushedSub _ hm)
-  have hA1 : vA ∈ s1.pushed := hi.2.retSub _ hA
-  obtain ⟨i0, hi0⟩ := idx_of_mem hA1
-  have hlt0 := idx_lt hi0
-  obtain ⟨l, hl⟩ := hpre
-  have hi0' : s2.pushed[i0]? = some vA := by
-    rw [← hl, List.getElem?_append_left hlt0]; exact hi0
-  have : i = i0 := nodup_idx hv2.pushedNd hia hi0'
-  subst this
-  by_cases hj : j < s1.pushed.length
-  · exfalso
-    rw [← hl, List.getElem?_append_left hj] at hjb
-    exact hfresh (mem_of_idx hjb)
-  · omega
+    | some s1' => exact (callPush_fresh (k := k) hst).2.2.1
+  exact realtime_abs hi.2 hA hfresh hpre hv2.pushedNd hia hjb
+
+/-- a payload handed to push by thread `t` has been returned by the time `t` is idle again -/
+theorem returned_when_idle {k : Kind} {stub : Nat} {s s' : St} {es : List Ev} {t v : Nat}
+    (hv : v ≠ 0) (h0 : (s.pc t).val = v) (hrun : (sys k stub).runFrom s es = some s')
+    (hidle : s'.pc t = .idle) : v ∈ s'.returned := by
+  have := runFrom_induct (sys k stub) (fun x => (x.pc t).val = v ∨ v ∈ x.returned)
+    (fun _ _ _ hp hs => val_or_returned_of_shape (step_vshape (k := k) hs) hv hp) (Or.inl h0) hrun
+  rcases this with h | h
+  · rw [hidle] at h; exact absurd h.symm hv
+  · exact h
 
 /-- at the instant a trypop reads `head->next = NULL`, either nothing follows the stub or the
     producer of the next node sits between its publication and its link write -/
@@ -1158,5 +1183,26 @@ theorem spsc_empty_core {s s' : St} {t h : Nat} (hi : Inv .spsc s) (hv : VInv s)
       simp only [Pc.val] at this
       rw [hwp, hdat] at hw
       exact this hw
+
+/-- a trypop reads `head->next = NULL` only if every completed push has been popped already,
+    or some push is between its publication and its link write -/
+theorem empty_pending_core {k : Kind} {s s' : St} {t h : Nat} (hi : Inv k s) (hv : VInv s)
+    (hs : step k s (.rdNext t h 0) = some s') :
+    (∀ v, v ∈ s.returned → v ∈ s.popped) ∨ ∃ p v n p', s.pc p = .xchgd v n p' := by
+  have hcp : ∃ h0, s.cpc = .gotHead h0 := by
+    simp only [step] at hs
+    split at hs
+    next h0 hcp => exact ⟨h0, hcp⟩
+    next => simp at hs
+  obtain ⟨h0, hcp⟩ := hcp
+  have hvals := hi.vals
+  simp only [inflight, hcp, List.append_nil] at hvals
+  obtain ⟨_, hq | ⟨p, v, n, hp, _⟩⟩ := empty_core hi hs
+  · left
+    intro w hw
+    have := hv.retSub _ hw
+    rw [hvals, hq] at this
+    simpa using this
+  · exact Or.inr ⟨p, v, n, _, hp⟩
 
 end LibfiberVerif.Mpsc
